@@ -43,7 +43,7 @@ def count_fn(interp, ch):
     fns = _count_fns(interp)
     f = fns.get(ch)
     if f is None:
-        f = z3.Function('count[%r]' % ch, z3.StringSort(), z3.IntSort())
+        f = z3.Function('count_u%04x' % ord(ch), z3.StringSort(), z3.IntSort())   # (a name every solver can parse)
         fns[ch] = f
         interp.st.axiom(f(z3.StringVal('')) == 0)
         interp.st.axiom(f(z3.StringVal(ch)) == 1)
@@ -63,8 +63,9 @@ def _count_facts(interp, f, ch, t):
     c = z3.StringVal(ch)
     # instances of axioms of the counting function: valid in every context (not scoped)
     st.axiom(z3.And(f(t) >= 0, f(t) <= z3.Length(t)))
-    # trusted lemma: count(s) == 0  <=>  ch not in s
-    st.axiom((f(t) == 0) == z3.Not(z3.Contains(t, c)))
+    # a string of one character: counts 1 iff it is that character
+    if st.len_must_hold(z3.Length(t) == 1):
+        st.axiom(z3.Implies(z3.Length(t) == 1, f(t) == z3.If(t == c, 1, 0)))
 
 
 def note_concat(interp, whole, parts, only=None):
@@ -88,6 +89,67 @@ def note_concat(interp, whole, parts, only=None):
                 st.axiom(f(p) == p.as_string().count(ch))
             else:
                 _count_facts(interp, f, ch, p)
+
+
+def count_term(interp, t, ch):
+    """number of occurrences of the single character ch in t, as an integer term; the facts that tie it to
+    the known pieces of t are added to the context.  Membership of a single character is expressed through
+    it as well (`ch in t`  is  count > 0: trusted lemma, listed in evidence), so that the solvers see linear
+    arithmetic over an additive measure instead of str.contains."""
+    st = interp.st
+    if z3.is_string_value(t):
+        return z3.IntVal(_lit(t).count(ch))
+    f = count_fn(interp, ch)
+    _count_facts(interp, f, ch, t)
+    tn = norm(interp, t)
+    if not tn.eq(t):
+        st.assume(f(t) == f(tn))      # t == tn holds in the current context
+    fl = _flat_concat(tn)
+    if len(fl) > 1:
+        note_concat(interp, tn, fl, only=ch)
+    elif not z3.is_string_value(tn):
+        _count_facts(interp, f, ch, tn)
+    else:
+        st.assume(f(t) == _lit(tn).count(ch))
+    return f(t)
+
+
+def contains_term(interp, t, u):
+    """`u in t` as a boolean term"""
+    if z3.is_string_value(u) and len(_lit(u)) == 1:
+        return count_term(interp, t, _lit(u)) > 0
+    return z3.Contains(norm(interp, t), norm(interp, u))
+
+
+def _is_count_app(t):
+    return z3.is_app(t) and t.num_args() == 1 and t.decl().name().startswith('count_u') and z3.is_string(t.arg(0))
+
+
+def _count_zero_fact(t):
+    """(x, ch) if the fact t says  count_ch(x) == 0  in one of the forms the simplifier produces"""
+    if not z3.is_app(t):
+        return None
+    k = t.decl().kind()
+    if k in (z3.Z3_OP_LE, z3.Z3_OP_EQ) and t.num_args() == 2:
+        a, b = t.children()
+        if _is_count_app(a) and z3.is_int_value(b) and b.as_long() == 0:
+            return a.arg(0), chr(int(a.decl().name()[7:], 16))
+        if k == z3.Z3_OP_EQ and _is_count_app(b) and z3.is_int_value(a) and a.as_long() == 0:
+            return b.arg(0), chr(int(b.decl().name()[7:], 16))
+    if k == z3.Z3_OP_NOT:
+        c = t.arg(0)
+        if z3.is_app(c) and c.num_args() == 2:
+            a, b = c.children()
+            kk = c.decl().kind()
+            if kk == z3.Z3_OP_GT and _is_count_app(a) and z3.is_int_value(b) and b.as_long() == 0:
+                return a.arg(0), chr(int(a.decl().name()[7:], 16))
+            if kk == z3.Z3_OP_GE and _is_count_app(a) and z3.is_int_value(b) and b.as_long() == 1:
+                return a.arg(0), chr(int(a.decl().name()[7:], 16))
+            if kk == z3.Z3_OP_LT and _is_count_app(b) and z3.is_int_value(a) and a.as_long() == 0:
+                return b.arg(0), chr(int(b.decl().name()[7:], 16))
+            if kk == z3.Z3_OP_LE and _is_count_app(b) and z3.is_int_value(a) and a.as_long() == 1:
+                return b.arg(0), chr(int(b.decl().name()[7:], 16))
+    return None
 
 
 def concat(interp, a, b):
@@ -180,6 +242,66 @@ def _is_piece(t):
     return z3.is_const(t) and not z3.is_string_value(t) and t.decl().kind() == z3.Z3_OP_UNINTERPRETED
 
 
+def _lit(p):
+    """python value of a z3 string literal"""
+    return p.as_string()
+
+
+def _note_not_containing(interp, x, ch):
+    st = interp.st
+    st._keep = getattr(st, '_keep', [])
+    st._keep.extend(st.scopes)
+    st.ghost.setdefault('__notin__', []).append((st._scope_ids(), x, ch))
+
+
+def _known_not_containing(interp, p, ch):
+    """is it a recorded fact of the current context that the piece p does not contain the character ch?"""
+    cur = interp.st._scope_ids()
+    for sc, x, c in interp.st.ghost.get('__notin__', ()):
+        if c != ch or not sc <= cur:
+            continue
+        if x.eq(p) or any(q.eq(p) for q in _flat_concat(norm(interp, x))):
+            return True
+    return False
+
+
+def _locate_single(interp, t, ch, reverse):
+    """Find the first (last) occurrence of the single character ch along the known pieces of t.
+    A piece that is not known to be free of ch is asked (case split on its count); if it has one it is
+    itself decomposed around its first (last) occurrence, so the result stays aligned with the pieces.
+    Returns ('at', before, after) with t == before . ch . after, or ('absent',)."""
+    st = interp.st
+    pieces = _flat_concat(norm(interp, t))
+    order = list(reversed(pieces)) if reverse else pieces
+    lit = z3.StringVal(ch)
+    for k, p in enumerate(order):
+        idx = len(pieces) - 1 - k if reverse else k
+        if z3.is_string_value(p):
+            sv = _lit(p)
+            if ch not in sv:
+                continue
+            i = sv.rindex(ch) if reverse else sv.index(ch)
+            head, tail = z3.StringVal(sv[:i]), z3.StringVal(sv[i + 1:])
+            return ('at', _cat(pieces[:idx] + [head]), _cat([tail] + pieces[idx + 1:]))
+        if _known_not_containing(interp, p, ch):
+            continue
+        if st.no_fork:
+            return None
+        n = count_term(interp, p, ch)
+        if st.fork(wrap(n > 0)):
+            a = _fresh(interp, 'upto')
+            b = _fresh(interp, 'after')
+            st.assume(p == z3.Concat(a, lit, b))
+            _add_decomp(interp, p, [a, lit, b])
+            note_concat(interp, p, [a, lit, b])
+            free = b if reverse else a
+            st.assume(count_term(interp, free, ch) == 0)
+            _note_not_containing(interp, free, ch)
+            return ('at', _cat(pieces[:idx] + [a]), _cat([b] + pieces[idx + 1:]))
+        _note_not_containing(interp, p, ch)
+    return ('absent',)
+
+
 def learn(interp, t, depth=0):
     """A fact has just been added to the context (path condition or current scope).  String equalities
     x == u with x a variable are remembered as the decomposition x = pieces(u), so that later slices of x
@@ -190,6 +312,10 @@ def learn(interp, t, depth=0):
     if k == z3.Z3_OP_AND:
         for c in t.children():
             learn(interp, c, depth + 1)
+        return
+    cz = _count_zero_fact(t)
+    if cz is not None:
+        _note_not_containing(interp, cz[0], cz[1])
         return
     if k != z3.Z3_OP_EQ:
         return
@@ -213,6 +339,14 @@ def _len_of(p):
     return z3.Length(p)
 
 
+def _cut_inside(interp, t, pieces, offs, j, a, base):
+    """offset a of t falls inside piece j of the decomposition `pieces` (offs: its boundaries)"""
+    pa, pb = cut(interp, pieces[j], z3.simplify(a - offs[j]), base)
+    mid = [x for x in _flat_concat(pa) + _flat_concat(pb) if not (z3.is_string_value(x) and x.as_string() == '')]
+    _add_decomp(interp, t, pieces[:j] + mid + pieces[j + 1:])
+    return _cat(pieces[:j] + _flat_concat(pa)), _cat(_flat_concat(pb) + pieces[j + 1:])
+
+
 def cut(interp, t, a, base='piece'):
     """(prefix, suffix) with t == prefix . suffix and |prefix| == a.  Requires 0 <= a <= |t| (established
     by the caller).  Pieces of earlier decompositions of t are re-used whenever a known boundary is
@@ -232,17 +366,33 @@ def cut(interp, t, a, base='piece'):
             off = z3.simplify(off + _len_of(p))
             offs.append(off)
         for j, o in enumerate(offs):
-            if o.eq(a) or (j > 0 and st.must_hold(o == a)):
+            if o.eq(a) or (j > 0 and st.len_must_hold(o == a)):
                 return _cat(pieces[:j]), _cat(pieces[j:])
         # inside a piece?
         for j, p in enumerate(pieces):
             if z3.is_string_value(p) and len(p.as_string()) <= 1:
                 continue
-            if st.must_hold(z3.And(offs[j] <= a, a <= offs[j + 1])):
-                pa, pb = cut(interp, p, z3.simplify(a - offs[j]), base)
-                refined = pieces[:j] + [x for x in (pa, pb)] + pieces[j + 1:]
-                _add_decomp(interp, t, refined)
-                return _cat(pieces[:j] + [pa]), _cat([pb] + pieces[j + 1:])
+            if st.len_must_hold(z3.And(offs[j] <= a, a <= offs[j + 1])):
+                return _cut_inside(interp, t, pieces, offs, j, a, base)
+    if decs and len(decs[-1]) > 1 and not st.no_fork:
+        # The offset is not known to be at a boundary or inside one particular piece: case split on where it
+        # falls (rather than a fresh split of t that is unrelated to its pieces: word equations between
+        # differently cut concatenations are what the solvers get lost in).
+        pieces = decs[-1]
+        off = z3.IntVal(0)
+        offs = [off]
+        for p in pieces:
+            off = z3.simplify(off + _len_of(p))
+            offs.append(off)
+        for j in range(len(pieces)):
+            if j == len(pieces) - 1 or st.fork(wrap(a <= offs[j + 1])):
+                if j == len(pieces) - 1:
+                    at_end = st.fork(wrap(a >= offs[j + 1]))
+                else:
+                    at_end = st.fork(wrap(a == offs[j + 1]))
+                if at_end:
+                    return _cat(pieces[:j + 1]), _cat(pieces[j + 1:])
+                return _cut_inside(interp, t, pieces, offs, j, a, base)
     p = _fresh(interp, base)
     q = _fresh(interp, base)
     st.assume(t == z3.Concat(p, q))
@@ -312,11 +462,11 @@ def _norm_index(i, L, interp=None):
         return i
     if interp is not None:
         st = interp.st
-        if st.must_hold(i >= 0):
-            if st.must_hold(i <= L):
+        if st.len_must_hold(i >= 0):
+            if st.len_must_hold(i <= L):
                 return i
             return z3.If(i > L, L, i)
-        if st.must_hold(i < 0) and st.must_hold(i + L >= 0):
+        if st.len_must_hold(i < 0) and st.len_must_hold(i + L >= 0):
             return i + L
     return z3.If(i < 0, z3.If(i + L < 0, 0, i + L), z3.If(i > L, L, i))
 
@@ -334,7 +484,7 @@ def getitem(interp, s, idx):
         key = (t.get_id(), a.sexpr(), b.sexpr())
         if key in cache and cache[key][2] <= st._scope_ids():
             return cache[key][0]
-        if st.must_hold(b >= a):
+        if st.len_must_hold(b >= a):
             mid_len = z3.simplify(b - a)
             a_len = a
         else:
@@ -374,15 +524,23 @@ def _find(interp, s, sub, start, reverse, raise_on_missing):
         if isinstance(r, int) and r == -1:
             return -1
         return wrap(_s(r) + z3.Length(pre)) if not (isinstance(r, int) and r == -1) else -1
-    if not st.fork(wrap(z3.Contains(t, u))):
+    if z3.is_string_value(u) and len(_lit(u)) == 1:
+        loc = _locate_single(interp, t, _lit(u), reverse)
+        if loc is not None and loc[0] == 'at':
+            return wrap(z3.Length(loc[1]))
+        if loc is not None and loc[0] == 'absent':
+            if raise_on_missing:
+                raise _pyraise(ValueError('substring not found'))
+            return -1
+    if not st.fork(wrap(contains_term(interp, t, u))):
         if raise_on_missing:
             raise _pyraise(ValueError('substring not found'))
         return -1
     p, m, q = decompose(interp, t, [None, None, None], 'find')
     st.assume(m == u)
-    single = z3.is_string_value(u) and len(u.as_string()) == 1
+    single = z3.is_string_value(u) and len(_lit(u)) == 1
     if single:
-        st.assume(z3.Not(z3.Contains(q if reverse else p, u)))
+        st.assume(count_term(interp, q if reverse else p, _lit(u)) == 0)
     else:
         if reverse:
             st.assume(z3.LastIndexOf(t, u) == z3.Length(p))
@@ -396,13 +554,19 @@ def _split_once(interp, s, sep, reverse=False):
     st = interp.st
     t = _s(s)
     u = _s(sep)
-    if not st.fork(wrap(z3.Contains(t, u))):
+    if z3.is_string_value(u) and len(_lit(u)) == 1:
+        loc = _locate_single(interp, t, _lit(u), reverse)
+        if loc is not None and loc[0] == 'at':
+            return True, wrap(loc[1]), wrap(loc[2])
+        if loc is not None and loc[0] == 'absent':
+            return False, wrap(t), None
+    if not st.fork(wrap(contains_term(interp, t, u))):
         return False, wrap(t), None
     p, m, q = decompose(interp, t, [None, None, None], 'split')
     st.assume(m == u)
-    single = z3.is_string_value(u) and len(u.as_string()) == 1
+    single = z3.is_string_value(u) and len(_lit(u)) == 1
     if single:
-        st.assume(z3.Not(z3.Contains(q if reverse else p, u)))
+        st.assume(count_term(interp, q if reverse else p, _lit(u)) == 0)
     elif reverse:
         st.assume(z3.LastIndexOf(t, u) == z3.Length(p))
     else:
@@ -445,7 +609,7 @@ def _strip(interp, s, chars, left, right):
         if right:
             st.assume(z3.InRe(b, cls))
             st.assume(z3.And(*[z3.Not(z3.SuffixOf(z3.StringVal(c), r)) for c in chars]))
-        _decomps(interp, t).append([x for x in (a, r, b) if not (z3.is_string_value(x) and x.as_string() == '')])
+        _add_decomp(interp, t, [x for x in (a, r, b) if not (z3.is_string_value(x) and x.as_string() == '')])
         note_concat(interp, t, [a, r, b])
     return wrap(r)
 
@@ -510,18 +674,7 @@ def call_method(interp, recv, name, args, kwargs):
             if len(args) > 1:
                 # s.count(c, a, b) counts in the slice s[a:b]
                 t = _s(getitem(interp, recv, slice(args[1], args[2] if len(args) > 2 else None, None)))
-            f = count_fn(interp, sub)
-            if z3.is_string_value(t):
-                return t.as_string().count(sub)
-            _count_facts(interp, f, sub, t)
-            # additivity over the known pieces of t
-            tn = norm(interp, t)
-            if not tn.eq(t):
-                st.assume(f(t) == f(tn))      # t == tn holds in the current context
-            fl = _flat_concat(tn)
-            if len(fl) > 1:
-                note_concat(interp, tn, fl, only=sub)
-            return wrap(f(t))
+            return wrap(count_term(interp, t, sub))
         raise Unsupported('count of a non-single-character')
     if name in ('isspace', 'isalnum', 'isdigit', 'isalpha', 'isidentifier', 'isupper', 'islower', 'isnumeric',
                 'isdecimal', 'isprintable'):
@@ -550,7 +703,7 @@ def call_method(interp, recv, name, args, kwargs):
     if name == '__add__':
         return concat(interp, recv, args[0])
     if name == '__contains__':
-        return wrap(z3.Contains(norm(interp, t), _sn(interp, args[0])))
+        return wrap(contains_term(interp, t, _s(args[0])))
     if name in ('splitlines',):
         raise Unsupported('str.splitlines on symbolic string (give the function a contract / model)')
     if name in ('removeprefix', 'removesuffix'):
